@@ -6,6 +6,7 @@ import (
 	"encoding/json"
 	"fmt"
 	"reflect"
+	"time"
 
 	"github.com/vimeo/dials"
 	"github.com/vimeo/dials/ptrify"
@@ -75,6 +76,29 @@ type StaticCfg struct {
 }
 type StaticInner2 struct{ W uint8 }
 
+// Two function-local struct types with the SAME NAME, the first text-unmarshalable through an
+// embedded time.Time, the second a plain struct that must be merged field by field.
+func sameNameA() reflect.Type {
+	type Section struct{ time.Time }
+	type Cfg struct {
+		S Section
+		X int
+	}
+	return reflect.TypeOf(Cfg{})
+}
+
+func sameNameB() reflect.Type {
+	type Section struct {
+		A int
+		B string
+	}
+	type Cfg struct {
+		S Section
+		X int
+	}
+	return reflect.TypeOf(Cfg{})
+}
+
 type layerSource struct{ v reflect.Value }
 
 func (l layerSource) Value(_ context.Context, _ *dials.Type) (reflect.Value, error) { return l.v, nil }
@@ -105,14 +129,20 @@ func run(raw json.RawMessage) driver.Result {
 	var T reflect.Type
 	if in.K == "static" {
 		T = reflect.TypeOf(StaticCfg{})
+	} else if in.K == "samenameA" {
+		T = sameNameA()
+	} else if in.K == "samenameB" {
+		T = sameNameB()
 	} else {
 		o := rty.AllOpts(in.Depth, in.Width)
 		o.Twins = true
 		o.DeepPtrs = true
+		o.IfaceSkip = r.Chance(1, 4)
 		T = rty.GenStruct(r, o, 0)
 	}
 	defaults := reflect.New(T)
 	rty.GenValue(r, defaults.Elem(), rty.VOpts{NilNum: 1, NilDen: 3}, 0)
+	ifaces := rty.FillIfaceFuncChan(r, defaults.Elem(), 0)
 	aliased := rty.AliasUserPtrs(r, defaults.Elem())
 	PT := ptrify.Pointerify(T, defaults.Elem())
 	nl := r.Intn(6)
@@ -152,6 +182,9 @@ func run(raw json.RawMessage) driver.Result {
 	tags := []string{fmt.Sprintf("layers-%d", nl), fmt.Sprintf("rounds-%d", rounds)}
 	if aliased > 0 {
 		tags = append(tags, "aliased-user-pointers")
+	}
+	if ifaces > 0 {
+		tags = append(tags, "interface-field-holding-func-or-chan")
 	}
 	for round := 0; round < rounds; round++ {
 		sel := layers
@@ -195,6 +228,11 @@ func run(raw json.RawMessage) driver.Result {
 
 func gen(r *coqfmt.Rng, n int, tier string) []json.RawMessage {
 	var out []json.RawMessage
+	// same-named local types, the text-unmarshalable one first (type-keyed caches must not confuse them)
+	for _, k := range []string{"samenameA", "samenameB", "samenameB", "samenameA", "samenameB"} {
+		b, _ := json.Marshal(input{K: k, State: r.U64(), Depth: 1, Width: 2})
+		out = append(out, b)
+	}
 	for i := 0; i < n; i++ {
 		depth := 1 + r.Intn(3)
 		width := 2 + r.Intn(5)
